@@ -48,16 +48,15 @@ def two64 : Nat := 18446744073709551616
 
 /-- the low 64 bits of `i` read as an `int64` (`int64(x)`, `int(x)` on a 64-bit platform, and the
     result of any wrapping int64 operation). -/
-def wrapI64 (i : Int) : Int :=
-  let m := i % (two64 : Int)
-  if m < (two63 : Int) then m else m - (two64 : Int)
+@[irreducible] def wrapI64 (i : Int) : Int :=
+  if i % 18446744073709551616 < 9223372036854775808 then i % 18446744073709551616
+  else i % 18446744073709551616 - 18446744073709551616
 
 /-- the low 32 bits of `i` read as an `int32` (`int32(x)`). -/
-def wrapI32 (i : Int) : Int :=
-  let m := i % (two32 : Int)
-  if m < (two31 : Int) then m else m - (two32 : Int)
+@[irreducible] def wrapI32 (i : Int) : Int :=
+  if i % 4294967296 < 2147483648 then i % 4294967296 else i % 4294967296 - 4294967296
 
-def isInt64 (i : Int) : Bool := decide (-(two63 : Int) ≤ i ∧ i < (two63 : Int))
+def isInt64 (i : Int) : Bool := decide (-9223372036854775808 ≤ i ∧ i < 9223372036854775808)
 def isUint64 (n : Nat) : Bool := decide (n < two64)
 def isUint32 (n : Nat) : Bool := decide (n < two32)
 
@@ -79,8 +78,9 @@ def natOfBE (bs : Bytes) : Nat := bs.foldl (fun acc b => acc * 256 + b.toNat) 0
 /-- `big.Int.Int64()` of a value given as sign and magnitude: the low 64 bits of the magnitude
     as an int64, negated (wrapping) for a negative value. -/
 def bigInt64 (neg : Bool) (mag : Nat) : Int :=
-  let v := wrapI64 ((mag % two64 : Nat) : Int)
-  if neg then wrapI64 (-v) else v
+  match neg with
+  | true => wrapI64 (-wrapI64 ((mag % two64 : Nat) : Int))
+  | false => wrapI64 ((mag % two64 : Nat) : Int)
 
 /-- `big.Int.Uint64()` of a non-negative value. -/
 def bigUint64 (mag : Nat) : Nat := mag % two64
@@ -155,10 +155,10 @@ def gobFloat32 (bits : Nat) : Bytes :=
   else if e = 0 then
     let k := bitLen m
     [1, UInt8.ofNat (10 + s), 0, 0, 0, 53]
-      ++ beFixed 4 (((k : Int) - 149) % (two32 : Int)).toNat ++ beFixed 8 (m * 2 ^ (64 - k))
+      ++ beFixed 4 (((k : Int) - 149) % 4294967296).toNat ++ beFixed 8 (m * 2 ^ (64 - k))
   else
     [1, UInt8.ofNat (10 + s), 0, 0, 0, 53]
-      ++ beFixed 4 (((e : Int) - 126) % (two32 : Int)).toNat ++ beFixed 8 ((two23 + m) * 2 ^ 40)
+      ++ beFixed 4 (((e : Int) - 126) % 4294967296).toNat ++ beFixed 8 ((two23 + m) * 2 ^ 40)
 
 /-- `TypedFloat.Float32()` restricted to byte strings that some non-NaN float32 produces through
     `gobFloat32` (decoding anything else needs rounding, which is not modelled: `none`).
@@ -166,22 +166,24 @@ def gobFloat32 (bits : Nat) : Bytes :=
 def float32OfGob (bs : Bytes) : Option Nat :=
   match bs with
   | [] => some 0
-  | [1, fl, 0, 0, 0, 53] =>
-    if fl = 8 then some 0 else if fl = 9 then some two31
-    else if fl = 12 then some (255 * two23) else if fl = 13 then some (two31 + 255 * two23)
+  | [v, fl, p0, p1, p2, p3] =>
+    if v = 1 ∧ p0 = 0 ∧ p1 = 0 ∧ p2 = 0 ∧ p3 = 53 then
+      if fl = 8 then some 0 else if fl = 9 then some two31
+      else if fl = 12 then some (255 * two23) else if fl = 13 then some (two31 + 255 * two23)
+      else none
     else none
-  | [1, fl, 0, 0, 0, 53, x0, x1, x2, x3, m0, m1, m2, m3, m4, m5, m6, m7] =>
-    if fl ≠ 10 ∧ fl ≠ 11 then none else
-    let s := if fl = 11 then two31 else 0
-    let expU := natOfBE [x0, x1, x2, x3]
-    let exp : Int := wrapI32 expU
-    let mant := natOfBE [m0, m1, m2, m3, m4, m5, m6, m7]
-    if mant < two63 then none
-    else if -125 ≤ exp ∧ exp ≤ 128 then
-      if mant % 2 ^ 40 = 0 then some (s + (exp + 126).toNat * two23 + (mant / 2 ^ 40 - two23)) else none
-    else if -148 ≤ exp ∧ exp ≤ -126 then
-      let k := (exp + 149).toNat
-      if mant % 2 ^ (64 - k) = 0 then some (s + mant / 2 ^ (64 - k)) else none
+  | [v, fl, p0, p1, p2, p3, x0, x1, x2, x3, m0, m1, m2, m3, m4, m5, m6, m7] =>
+    if v = 1 ∧ p0 = 0 ∧ p1 = 0 ∧ p2 = 0 ∧ p3 = 53 ∧ (fl = 10 ∨ fl = 11) then
+      let s := if fl = 11 then two31 else 0
+      let exp : Int := wrapI32 (natOfBE [x0, x1, x2, x3] : Nat)
+      let mant := natOfBE [m0, m1, m2, m3, m4, m5, m6, m7]
+      if mant < two63 then none
+      else if -125 ≤ exp ∧ exp ≤ 128 then
+        if mant % 2 ^ 40 = 0 then some (s + (exp + 126).toNat * two23 + (mant / 2 ^ 40 - two23)) else none
+      else if -148 ≤ exp ∧ exp ≤ -126 then
+        let k := (exp + 149).toNat
+        if mant % 2 ^ (64 - k) = 0 then some (s + mant / 2 ^ (64 - k)) else none
+      else none
     else none
   | _ => none
 
